@@ -38,6 +38,9 @@ type Mutex struct {
 
 // Lock mirrors (*sync.Mutex).Lock.
 func (m *Mutex) Lock() {
+	if sched.Zombie() {
+		return
+	}
 	if !sched.Active() {
 		m.real.Lock()
 		return
@@ -54,6 +57,9 @@ func (m *Mutex) Lock() {
 
 // TryLock mirrors (*sync.Mutex).TryLock.
 func (m *Mutex) TryLock() bool {
+	if sched.Zombie() {
+		return true
+	}
 	if !sched.Active() {
 		return m.real.TryLock()
 	}
@@ -67,6 +73,9 @@ func (m *Mutex) TryLock() bool {
 
 // Unlock mirrors (*sync.Mutex).Unlock.
 func (m *Mutex) Unlock() {
+	if sched.Zombie() {
+		return
+	}
 	if !sched.Active() {
 		m.real.Unlock()
 		return
@@ -84,10 +93,17 @@ type RWMutex struct {
 	real    sync.RWMutex
 	writer  bool
 	readers int
+	// waiting counts writers blocked in Lock: as with the real RWMutex, a blocked
+	// Lock call keeps NEW readers out (so a goroutine that read-locks twice
+	// deadlocks when a writer arrives in between).
+	waiting int
 }
 
 // Lock mirrors (*sync.RWMutex).Lock.
 func (m *RWMutex) Lock() {
+	if sched.Zombie() {
+		return
+	}
 	if !sched.Active() {
 		m.real.Lock()
 		return
@@ -98,12 +114,17 @@ func (m *RWMutex) Lock() {
 			m.writer = true
 			return
 		}
+		m.waiting++
 		sched.BlockOn(m, "RWMutex.Lock(blocked)")
+		m.waiting--
 	}
 }
 
 // Unlock mirrors (*sync.RWMutex).Unlock.
 func (m *RWMutex) Unlock() {
+	if sched.Zombie() {
+		return
+	}
 	if !sched.Active() {
 		m.real.Unlock()
 		return
@@ -115,13 +136,16 @@ func (m *RWMutex) Unlock() {
 
 // RLock mirrors (*sync.RWMutex).RLock.
 func (m *RWMutex) RLock() {
+	if sched.Zombie() {
+		return
+	}
 	if !sched.Active() {
 		m.real.RLock()
 		return
 	}
 	for {
 		sched.Point("RWMutex.RLock")
-		if !m.writer {
+		if !m.writer && m.waiting == 0 {
 			m.readers++
 			return
 		}
@@ -131,6 +155,9 @@ func (m *RWMutex) RLock() {
 
 // RUnlock mirrors (*sync.RWMutex).RUnlock.
 func (m *RWMutex) RUnlock() {
+	if sched.Zombie() {
+		return
+	}
 	if !sched.Active() {
 		m.real.RUnlock()
 		return
